@@ -4,13 +4,13 @@ from lib.coqterm import cbool, cbytes, clist, cN, copt, ccodepoints, hx, unhx
 
 ID = "C28"
 QUICK_N = 2600
-THOROUGH_N = 40000
+THOROUGH_N = 24000
 SHARD = 220
 RULE = ("65% sessions with a real WebsocketLayer between two in-memory wsproto peers: 1-7 messages (text 60%/binary) in both "
         "directions built from a UTF-8 token dictionary (1-4 byte characters, emoji, combining marks), cut into 1-5 frames at "
         "arbitrary byte offsets (also inside a character), frames segmented into DataReceived pieces or coalesced, pings/pongs "
         "between fragments, injected messages (also while a fragmented message is in progress), close frames with code/reason, "
-        "EOF, with/without permessage-deflate, FRAGMENT_SIZE monkeypatched to 1..16 (4000 in ~1.5% of cases with >4000-byte "
+        "EOF, with/without permessage-deflate, FRAGMENT_SIZE monkeypatched to 1..16 (4000 in ~1% of cases with >4000-byte "
         "contents), addon actions keep / same-length edit (rotate) / longer / shorter / drop, hook replies delayed by 0-3 events; "
         "15% adversarial frame streams (invalid UTF-8, unexpected continuation, bad close payloads, reserved opcodes); "
         "20% direct Fragmentizer calls (length lists x contents x is_text). Non-trivial = at least one message was re-fragmented "
